@@ -26,6 +26,7 @@ from harness.common.build import PY, InfraError
 from harness.common.extract import NotRecognised
 from harness.common.fakeproc import FakeProc, reset_psutil_state
 from harness.common.shrink import ddmin
+from harness.props import c04_fullproc
 
 PROP = "C04"
 DRIVER_MODULES = ["PsutilModel.Model.C04Gen", "PsutilModel.Spec.C04"]
@@ -153,6 +154,44 @@ def _no_access(tree):
     return sorted(out)
 
 
+def _gone_refused(tree):
+    """does `_raise_if_pid_reused` raise NoSuchProcess when `self._gone` is set (after the reuse test)?"""
+    fn = extract.find_def(tree, "_raise_if_pid_reused", cls="Process")
+    for st in fn.body:
+        if isinstance(st, ast.If) and ast.unparse(st.test) == "self._gone":
+            for n in ast.walk(st):
+                if isinstance(n, ast.Raise) and isinstance(n.exc, ast.Call) \
+                        and extract.dotted(n.exc.func) == "NoSuchProcess":
+                    return True
+            raise NotRecognised("_raise_if_pid_reused: `if self._gone:` without raise NoSuchProcess")
+    for n in ast.walk(fn):
+        if isinstance(n, ast.Attribute) and n.attr == "_gone":
+            raise NotRecognised("_raise_if_pid_reused: unrecognised use of self._gone")
+    return False
+
+
+def _pop_guarded(tree):
+    """is `_pids_reused.pop()` in process_iter's drain loop protected against the set having been emptied by
+    another thread (try/except KeyError)?"""
+    fn = extract.find_def(tree, "process_iter")
+    for st in fn.body:
+        if isinstance(st, ast.While) and extract.dotted(st.test) == "_pids_reused":
+            for b in st.body:
+                if isinstance(b, ast.Assign) and isinstance(b.value, ast.Call) \
+                        and extract.dotted(b.value.func) == "_pids_reused.pop":
+                    return False
+                if isinstance(b, ast.Try):
+                    pops = [n for n in ast.walk(ast.Module(body=b.body, type_ignores=[]))
+                            if isinstance(n, ast.Call) and extract.dotted(n.func) == "_pids_reused.pop"]
+                    caught = [extract.dotted(t) for h in b.handlers if h.type is not None
+                              for t in (h.type.elts if isinstance(h.type, ast.Tuple) else [h.type])]
+                    leaves = all(any(isinstance(x, (ast.Break, ast.Return)) for x in h.body) for h in b.handlers)
+                    if pops and "KeyError" in caught and leaves:
+                        return True
+            raise NotRecognised("process_iter: drain loop without a recognisable _pids_reused.pop()")
+    raise NotRecognised("process_iter: `while _pids_reused:` not found at top level")
+
+
 def facts(snap, F):
     init = extract.parse_module(snap, "__init__.py")
     posix = extract.parse_module(snap, "_psposix.py")
@@ -174,6 +213,10 @@ def facts(snap, F):
               "names as_dict() answers from the Process object itself (no look at the process)")
     F.try_add("reuseAttrs", "List String", lambda: extract.lean_list(_reuse_attrs(init, valid()), extract.lean_str),
               "valid as_dict names whose Process method calls self._raise_if_pid_reused() unconditionally")
+    F.try_add("popGuarded", "Bool", lambda: extract.lean_bool(_pop_guarded(init)),
+              "process_iter's drain loop catches the KeyError of _pids_reused.pop() on a set emptied by another thread")
+    F.try_add("goneRefused", "Bool", lambda: extract.lean_bool(_gone_refused(init)),
+              "_raise_if_pid_reused() raises NoSuchProcess once is_running() has seen the process gone (self._gone)")
 
 
 # ------------------------------------------------------------------------------ simulated kernel (mirrors Kernel.apply)
@@ -260,12 +303,18 @@ class Impl:
         self.rootb = os.fsencode(self.root)
         self.k = SimKernel()
         self.pending_mid = None
+        self.pending_kill_mid = None
         self.real_listdir = os.listdir
         self.real_kill = os.kill
         self.real_getsid = os.getsid
         os.listdir = self._listdir
         os.kill = self._kill
         self.fp.write("stat", b"cpu  0 0 0 0 0 0 0 0 0 0\nbtime 1000000\n")
+        self.fp.write("meminfo", c04_fullproc.MEMINFO)
+        for rel, head in c04_fullproc.NET_HEADERS.items():
+            self.fp.write(rel, head)
+        self.full = False            # install the complete /proc/<pid> (every as_dict getter can run)
+        self.patches = None
         self.stage = tempfile.mkdtemp(prefix="psv-c04-stage-", dir=os.path.dirname(self.root))
         self.gens = []
         self.yielded = {}        # step index -> object
@@ -273,7 +322,17 @@ class Impl:
         self.canon = {}
         self.step = 0
 
+    def want_full(self, on):
+        self.full = bool(on)
+        if on and self.patches is None:
+            self.patches = c04_fullproc.OsPatches(self)
+        if self.patches is not None:
+            self.patches.deny = set()
+
     def close(self):
+        if self.patches is not None:
+            self.patches.close()
+            self.patches = None
         os.listdir = self.real_listdir
         os.kill = self.real_kill
         for g in self.gens:
@@ -287,6 +346,8 @@ class Impl:
 
     # ---- patched OS entry points
     def _listdir(self, path="."):
+        if self.patches is not None:
+            self.patches.check(path)
         res = self.real_listdir(path)
         if path == self.root or path == self.rootb:
             hidden = {t["tid"] for t in self.k.thrs}
@@ -307,14 +368,22 @@ class Impl:
             pass
         if sig != 0 or pid <= 0:
             raise RuntimeError("harness: unexpected os.kill(%r, %r)" % (pid, sig))
+        err = None
         p = self.k.find_proc(pid)
         if p is None:
             t = self.k.find_thr(pid)
             if t is None:
-                raise ProcessLookupError(3, "No such process")
-            p = self.k.find_proc(t["tgid"])
-        if p is not None and p["foreign"]:
-            raise PermissionError(1, "Operation not permitted")
+                err = ProcessLookupError(3, "No such process")
+            else:
+                p = self.k.find_proc(t["tgid"])
+        if err is None and p is not None and p["foreign"]:
+            err = PermissionError(1, "Operation not permitted")
+        if self.pending_kill_mid is not None:      # table changes between the probe and what follows it
+            mid, self.pending_kill_mid = self.pending_kill_mid, None
+            for ev in mid:
+                self.kev(ev)
+        if err is not None:
+            raise err
 
     # ---- world
     def _install(self, name, files):
@@ -322,10 +391,7 @@ class Impl:
         half-written record; matters for the two-thread runs)"""
         self._serial = getattr(self, "_serial", 0) + 1
         stage = os.path.join(self.stage, "n%d" % self._serial)
-        os.makedirs(stage)
-        for fn, data in files.items():
-            with open(os.path.join(stage, fn), "wb") as f:
-                f.write(data)
+        c04_fullproc.write_tree(stage, files)
         dst = self.fp.path(name)
         if os.path.lexists(dst):
             self._uninstall(name)
@@ -347,6 +413,8 @@ class Impl:
                     files["status"] = status_bytes(x["pid"], x["pid"])
                 elif x["status"] == "notgid":
                     files["status"] = status_bytes(x["pid"], x["pid"], with_tgid=False)
+                if self.full and x["status"] == "ok":
+                    files = c04_fullproc.files_for(x["pid"], files["stat"], x["zombie"])
                 self._install(str(x["pid"]), files)
             elif act == "mkthr":
                 self._install(str(x["tid"]), {"stat": stat_bytes(x["tid"], x["start"], "S"),
@@ -366,6 +434,9 @@ class Impl:
         self.canon = {}
         self.step = 0
         self.pending_mid = None
+        self.pending_kill_mid = None
+        if self.patches is not None:
+            self.patches.deny = set()
         for p in list(self.k.procs):
             self._uninstall(str(p["pid"]))
         for t in list(self.k.thrs):
@@ -391,6 +462,7 @@ class Impl:
             if isinstance(e, (KeyboardInterrupt, SystemExit)):
                 raise
             self.pending_mid = None
+            self.pending_kill_mid = None
             return {"kind": "exc", "exc": type(e).__name__}
 
     def _do(self, op, t):
@@ -404,6 +476,32 @@ class Impl:
             return {"kind": "pids", "l": [int(x) for x in r], "lowest": getattr(ps, "_LOWEST_PID", "n/a")}
         if o == "pid_exists":
             r = ps.pid_exists(op["n"])
+            if r is not True and r is not False:
+                return {"kind": "notbool", "v": repr(r)}
+            return {"kind": "bool", "v": r}
+        if o == "pid_exists_arg":
+            r = ps.pid_exists(py_arg(op))
+            if r is not True and r is not False:
+                return {"kind": "notbool", "v": repr(r)}
+            return {"kind": "bool", "v": r}
+        if o == "posix_pid_exists":
+            r = ps._psposix.pid_exists(op["n"])
+            if r is not True and r is not False:
+                return {"kind": "notbool", "v": repr(r)}
+            return {"kind": "bool", "v": r}
+        if o == "linux_pid_exists":
+            if op["n"] == 0:                    # answered without a probe: the window is before the status read
+                for ev in op["mid"]:
+                    self.kev(ev)
+            else:
+                self.pending_kill_mid = list(op["mid"])
+            try:
+                r = self.linux.pid_exists(op["n"])
+            finally:
+                if self.pending_kill_mid is not None:      # the probe raised before deciding (OverflowError)
+                    mid, self.pending_kill_mid = self.pending_kill_mid, None
+                    for ev in mid:
+                        self.kev(ev)
             if r is not True and r is not False:
                 return {"kind": "notbool", "v": repr(r)}
             return {"kind": "bool", "v": r}
@@ -463,9 +561,19 @@ def set_order(attrs):
     return list(set(attrs))
 
 
+def py_arg(op):
+    """the Python object a `pid_exists_arg` op passes to psutil.pid_exists"""
+    if op["t"] == "bool":
+        return bool(op["v"])
+    return float(op["x"])
+
+
 def model_line(op):
     if op["op"] == "iter" and op["attrs"] is not None:
         return {"op": "iter", "attrs": set_order(op["attrs"])}
+    if op["op"] == "pid_exists_arg" and op["t"] == "float":
+        x = float(op["x"])
+        return {"op": "pid_exists_arg", "t": "float_neg" if x < 0 else "float_zero" if x == 0 else "float_other"}
     return op
 
 
@@ -524,7 +632,7 @@ def regions(hist, impl_outs, reuse_attrs, flags=()):
         o = op["op"]
         if o == "kev":
             evs = [op["ev"]]
-        elif o == "next":
+        elif o in ("next", "linux_pid_exists"):
             evs = op["mid"]
         else:
             evs = []
@@ -547,7 +655,7 @@ def regions(hist, impl_outs, reuse_attrs, flags=()):
             else:
                 susp.discard(op["g"])
             a = gattrs[op["g"]]
-            if a is not None and (set(a) & set(reuse_attrs)) and reused_pid:
+            if a is not None and (a == [] or (set(a) & set(reuse_attrs))) and reused_pid:
                 reg.add(F_PPID)
         elif o == "close":
             susp.discard(op["g"])
@@ -570,6 +678,7 @@ def run_histories(ctx, impl, hists):
     for h in hists:
         i += 1
         impl.reset()
+        impl.want_full(any(o["op"] == "iter" and o["attrs"] == [] for o in h))
         impl.gen_attrs = [o["attrs"] for o in h if o["op"] == "iter"]
         cm, cs = Canon(), Canon()
         rows = Rows()
@@ -863,6 +972,73 @@ def gen_history(rng, family):
             if rng.random() < 0.15:
                 b.kev()
         b.h.append({"op": "pids"})
+    elif family == "attrs_all":
+        # attrs=[] = every valid name, on the complete fake /proc/<pid> (only processes with a status file: a real
+        # /proc/<pid> always has one)
+        for _ in range(rng.randrange(1, 4)):
+            ev = {"k": "spawn", "p": mk_proc(rng.choice(b.universe), b.tick(), zombie=rng.random() < 0.2)}
+            b.k.apply(ev)
+            b.h.append({"op": "kev", "ev": ev})
+        for _ in range(rng.randrange(1, 3)):
+            g = b.iter([])
+            for _ in range(len(b.k.procs) + 1):
+                r = rng.random()
+                mid = []
+                if r < 0.25 and b.k.procs:
+                    mid = [{"k": "exit", "pid": rng.choice([p["pid"] for p in b.k.procs])}]
+                elif r < 0.35:
+                    mid = [{"k": "spawn", "p": mk_proc(rng.choice(b.universe), b.tick())}]
+                for e in mid:
+                    b.k.apply(e)
+                b.next(g, mid)
+            b.live.remove(g)
+            if rng.random() < 0.5:
+                pids = [p["pid"] for p in b.k.procs]
+                if pids and rng.random() < 0.5:
+                    pid = rng.choice(pids)
+                    for e in ({"k": "exit", "pid": pid}, {"k": "spawn", "p": mk_proc(pid, b.tick())}):
+                        b.k.apply(e)
+                        b.h.append({"op": "kev", "ev": e})
+                else:
+                    b.full(rng.choice([None, ["name", "pid"]]))
+    elif family == "pid_exists_platform":
+        # the two platform functions on their own (table changes between the kill probe and the status
+        # read), and bool / float arguments of the front-end function
+        b.populate(rng.randrange(1, 5))
+        for _ in range(rng.randrange(0, 3)):
+            b.kev(rng.choice(["thread", "thread", "zombie", "exit"]))
+        for _ in range(rng.randrange(3, 9)):
+            ids = [p["pid"] for p in b.k.procs] + [t["tid"] for t in b.k.thrs]
+            n = rng.choice(ids + ids + b.universe + [0, 6, 13, 2**31 - 1, 2**31, 2**64])
+            r = rng.random()
+            if r < 0.25:
+                b.h.append({"op": "posix_pid_exists", "n": n})
+            elif r < 0.7:
+                mid = []
+                if rng.random() < 0.6:
+                    k = rng.random()
+                    if k < 0.35 and b.k.find_proc(n):                 # n exits, its number becomes a thread id
+                        others = [p["pid"] for p in b.k.procs if p["pid"] != n]
+                        mid = [{"k": "exit", "pid": n}]
+                        if others and rng.random() < 0.6:
+                            mid.append({"k": "thread", "t": {"tid": n, "tgid": rng.choice(others), "start": b.tick()}})
+                    elif k < 0.6 and b.k.find_thr(n):                 # a thread id becomes a PID
+                        mid = [{"k": "exit", "pid": b.k.find_thr(n)["tgid"]},
+                               {"k": "spawn", "p": mk_proc(n, b.tick(), status=rng.choice(["ok", "notgid", "unreadable"]))}]
+                    elif 0 < n <= PID_T_MAX and rng.random() < 0.5:
+                        mid = [{"k": "spawn", "p": mk_proc(n, b.tick())}]
+                    else:
+                        mid = [{"k": "exit", "pid": n}]
+                    for e in mid:
+                        b.k.apply(e)
+                b.h.append({"op": "linux_pid_exists", "n": n, "mid": mid})
+            elif r < 0.85:
+                b.h.append({"op": "pid_exists_arg", "t": "bool", "v": rng.random() < 0.5})
+            else:
+                b.h.append({"op": "pid_exists_arg", "t": "float",
+                            "x": repr(rng.choice([-1.5, -0.0, 0.0, 0.5, 1.0, 5.0, 2.0**31, 1e30, float("inf"),
+                                                  float("-inf"), float("nan")]))})
+        b.h.append({"op": "pids"})
     else:  # mixed
         b.populate(rng.randrange(0, 4))
         for _ in range(rng.randrange(6, 30 if family == "long" else 16)):
@@ -889,7 +1065,7 @@ def gen_history(rng, family):
 
 
 FAMILIES = ["static", "churn", "vanish_mid", "vanish_respawn", "reuse_flag", "clear", "attrs", "partial", "overlap",
-            "pid_exists", "mixed", "long"]
+            "pid_exists", "mixed", "long", "pid_exists_platform", "attrs_all"]
 
 
 def corpus():
@@ -986,8 +1162,34 @@ def pid_exists_table():
     args = list(range(-3, 13)) + [PID_T_MAX - 1, PID_T_MAX, PID_T_MAX + 1, 2**32, 2**32 + 1, 2**63 - 1, 2**63,
                                   2**64, 10**25, -2**31, -2**31 - 1, -2**63 - 1]
     without0 = [x for x in h if not (x["op"] == "kev" and x["ev"].get("p", {}).get("pid") == 0)]
-    return [h + [{"op": "pid_exists", "n": n} for n in args],
-            without0 + [{"op": "pid_exists", "n": n} for n in args]]
+    # the platform functions on their own: every branch of _psposix.pid_exists (PID 0, ESRCH, EPERM, ok,
+    # OverflowError) and of _pslinux.pid_exists (probe says no; Tgid equal / different; Tgid line missing;
+    # status unreadable; PID 0), then bool / float arguments of the front-end
+    pargs = list(range(0, 13)) + [PID_T_MAX - 1, PID_T_MAX, PID_T_MAX + 1, 2**64]
+    plat = []
+    for n in pargs:
+        plat.append({"op": "posix_pid_exists", "n": n})
+        plat.append({"op": "linux_pid_exists", "n": n, "mid": []})
+    odd = [{"op": "pid_exists_arg", "t": "bool", "v": True}, {"op": "pid_exists_arg", "t": "bool", "v": False}] + \
+        [{"op": "pid_exists_arg", "t": "float", "x": repr(x)}
+         for x in (-1.5, -0.0, 0.0, 0.5, 1.0, 2.0, 2.0**31, 1e30, float("inf"), float("-inf"), float("nan"))]
+
+    def thr(tid, tgid):
+        return {"k": "thread", "t": {"tid": tid, "tgid": tgid, "start": 77}}
+    # table changes between the kill probe and the status read (each on a fresh table)
+    windows = [
+        [{"op": "linux_pid_exists", "n": 1, "mid": [{"k": "exit", "pid": 1}]}],                    # status gone → listing → False
+        [{"op": "linux_pid_exists", "n": 1, "mid": [{"k": "exit", "pid": 1}, thr(1, 6)]}],          # number now a thread id → False
+        [{"op": "linux_pid_exists", "n": 8, "mid": [{"k": "exit", "pid": 1}, {"k": "spawn", "p": mk_proc(8, 90)}]}],   # thread id now a PID → True
+        [{"op": "linux_pid_exists", "n": 8, "mid": [{"k": "exit", "pid": 1}, {"k": "spawn", "p": mk_proc(8, 90, status="notgid")}]}],
+        [{"op": "linux_pid_exists", "n": 3, "mid": [{"k": "exit", "pid": 3}]}],                    # no Tgid line … gone → False
+        [{"op": "linux_pid_exists", "n": 7, "mid": [{"k": "spawn", "p": mk_proc(7, 91)}]}],        # ESRCH at the probe → False
+        [{"op": "linux_pid_exists", "n": 2, "mid": [{"k": "exit", "pid": 2}, {"k": "spawn", "p": mk_proc(2, 92)}]}],   # EPERM, then recycled → True
+        [{"op": "linux_pid_exists", "n": 0, "mid": [{"k": "exit", "pid": 0}]}],
+    ]
+    return [h + [{"op": "pid_exists", "n": n} for n in args] + plat + odd,
+            without0 + [{"op": "pid_exists", "n": n} for n in args] + plat + odd] + \
+        [h + w + [{"op": "pids"}] for w in windows]
 
 
 def features(h, rows):
@@ -1028,6 +1230,13 @@ def features(h, rows):
                 f.add("pid_exists_huge")
             if o["n"] < 0:
                 f.add("pid_exists_negative")
+        elif k == "posix_pid_exists":
+            f.add("posix_pid_exists:%s" % (io.get("v") if io.get("kind") == "bool" else io.get("exc")))
+        elif k == "linux_pid_exists":
+            f.add("linux_pid_exists%s:%s" % ("_window" if o["mid"] else "",
+                                              io.get("v") if io.get("kind") == "bool" else io.get("exc")))
+        elif k == "pid_exists_arg":
+            f.add("pid_exists_%s:%s" % (o["t"], io.get("v") if io.get("kind") == "bool" else io.get("exc")))
         elif k == "kev":
             f.add("kev:" + o["ev"]["k"])
     # skipped PIDs / identity reuse
@@ -1075,7 +1284,9 @@ def check_batch(ctx, impl, res, hists, tags, sample_idx=()):
             res.count("feature:" + f)
         res.count("ops", len(h))
         nontriv = bool(feats & {"same_object_again", "pid_got_new_object", "overlap", "mid_events", "info",
-                                "pid_exists_True", "pid_exists_huge", "clear", "is_running_False"})
+                                "pid_exists_True", "pid_exists_huge", "clear", "is_running_False",
+                                "linux_pid_exists_window:True", "linux_pid_exists_window:False",
+                                "linux_pid_exists:True", "posix_pid_exists:True", "pid_exists_float:TypeError"})
         sample = None
         if j in sample_idx:
             sample = {"family": tag, "history": h, "impl": [r[1] for r in rows]}
@@ -1140,6 +1351,71 @@ def listing_cases(ctx, impl, res):
     return len(lines)
 
 
+class _AdValue:
+    def __repr__(self):
+        return "<ad_value>"
+
+
+def attrs_all_cases(ctx, impl, res):
+    """process_iter(attrs=[] / explicit names, ad_value=X) on the complete fake /proc/<pid>, with EACCES injected on one or
+    two entries of some PID: `info` must have exactly the valid names as keys, and hold X exactly under the names whose
+    getter, called on its own, raises AccessDenied / ZombieProcess (Lean: asDictVals, theorem C04_asdict_ad_value)."""
+    rng = ctx.rng
+    ps = impl.ps
+    names = sorted(ps._as_dict_attrnames)
+    sent = _AdValue()
+    lines, cases = [], []
+    for c in range(ctx.n(12, 300)):
+        impl.reset()
+        impl.want_full(True)
+        pids = rng.sample([1, 2, 3, 5, 8, 300, 4194304], rng.randrange(1, 4))
+        for i, pid in enumerate(pids):
+            impl.kev({"k": "spawn", "p": mk_proc(pid, 100 + i, zombie=rng.random() < 0.2)})
+        deny = set()
+        for _ in range(rng.choice([0, 1, 1, 2])):
+            deny.add((rng.choice(pids), rng.choice(c04_fullproc.DENIABLE)))
+        impl.patches.deny = deny
+        explicit = rng.random() < 0.3
+        attrs = rng.sample(names, rng.randrange(1, 6)) if explicit else []
+        want = sorted(attrs) if explicit else names
+        outcomes = {pid: [(nm, c04_fullproc.getter_outcome(ps, pid, nm)) for nm in want] for pid in pids}
+        reset_psutil_state(ps)
+        impl.linux.BOOT_TIME = 1000000.0
+        got = {}
+        try:
+            for p in ps.process_iter(attrs=list(attrs), ad_value=sent):
+                got[int(p.pid)] = {"kind": "dict", "items": sorted([k, v is sent] for k, v in p.info.items())}
+        except Exception as e:  # noqa: BLE001
+            got["exc"] = type(e).__name__
+        impl.patches.deny = set()
+        for pid in sorted(pids):
+            lines.append({"op": "as_dict", "explicit": explicit,
+                          "outs": [{"name": nm, "res": r} for nm, r in outcomes[pid] if not r.startswith("exc:")]})
+            cases.append((pid, sorted(deny), attrs, outcomes[pid], got.get(pid, {"kind": "absent"}), got.get("exc")))
+    impl.want_full(False)
+    outs = ctx.driver().batch(lines) if lines else []
+    for (pid, deny, attrs, outcome, got, exc), m in zip(cases, outs):
+        inp = {"attrs_all": {"pid": pid, "deny": [list(d) for d in deny], "attrs": attrs}}
+        res.case(("attrs_all", pid, deny, attrs, outcome), nontrivial=any(r in ("ad", "zombie") for _, r in outcome))
+        res.count("family:attrs_all_ad_value")
+        for _, r in outcome:
+            res.count("getter_outcome:" + r.split(":")[0])
+        odd = [(nm, r) for nm, r in outcome if r.startswith("exc:")]
+        mo = m["model"]
+        if mo.get("kind") == "dict":
+            mo = {"kind": "dict", "items": sorted(mo["items"])}
+        elif mo.get("exc") == "NoSuchProcess":
+            mo = {"kind": "absent"}                 # process_iter skips the PID
+        if exc is not None or odd:
+            res.disagree("spec", inp, {"exception": exc, "getters": odd}, mo, mo,
+                         note="a getter / process_iter(attrs=%r) raised something else than a psutil error with EACCES on %r"
+                              % (attrs, deny))
+        elif got != mo:
+            res.disagree("spec", inp, got, mo, mo,
+                         note="info of PID %d differs from the names/ad_value substitution the getters' own outcomes give" % pid)
+    return len(lines)
+
+
 def correspond(ctx, res):
     impl = Impl(ctx)
     try:
@@ -1179,7 +1455,12 @@ def correspond(ctx, res):
                           "is_running on the last object yielded for PID 5} containing an iteration; the complete "
                           "pid_exists table; the random families are samples" % (len(hists) - n_rand, maxlen))
         total_lines += listing_cases(ctx, impl, res)
+        total_lines += attrs_all_cases(ctx, impl, res)
         res.extra["driver_lines"] = total_lines
+        # two threads at once: deterministic bounded-pre-emption exploration (model-independent oracle + the Lean
+        # model on item-boundary schedules + the Lean drain model on the drain-loop steps)
+        from harness.props import c04_preempt
+        c04_preempt.explore(ctx, res, impl, full=(ctx.tier == "thorough"), budget=int(60 * min(ctx.budget_factor, 10)))
         if ctx.tier == "thorough":
             res.extra["two_thread_runs"] = two_threads(ctx, impl, res, 150)
     finally:
@@ -1256,7 +1537,7 @@ def _first_spec_failure(ctx, impl, hist):
 
 def shrink(ctx, d):
     hist = d["input"].get("history")
-    if not hist:
+    if not hist or "preempt" in d["input"]:
         return d
     impl = Impl(ctx)
     try:
@@ -1272,6 +1553,20 @@ def shrink(ctx, d):
 
 def replay(ctx, rp, res):
     inp = rp["input"]
+    if "attrs_all" in inp or "listing_entries" in inp:
+        impl = Impl(ctx)
+        try:
+            r2 = type(res)()
+            for _ in range(40):                      # the generator is cheap: re-run it and look for the same kind of failure
+                attrs_all_cases(ctx, impl, r2) if "attrs_all" in inp else listing_cases(ctx, impl, r2)
+                if r2.disagreements:
+                    return True
+            return False
+        finally:
+            impl.close()
+    if "preempt" in inp:
+        from harness.props import c04_preempt
+        return c04_preempt.replay(ctx, rp, res)
     impl = Impl(ctx)
     try:
         if inp.get("history"):
@@ -1284,6 +1579,13 @@ def replay(ctx, rp, res):
 def check_finding(ctx, fnd):
     """replay the finding's witness: does the implementation still differ from the specification
     there (and agree with the recorded defective behaviour)?"""
+    if "preempt" in fnd["witness"]:
+        from harness.props import c04_preempt
+        impl = Impl(ctx)
+        try:
+            return "reproduces" if c04_preempt.check_finding_pop(ctx, impl) else "gone"
+        finally:
+            impl.close()
     hist = fnd["witness"]["history"]
     impl = Impl(ctx)
     try:
